@@ -78,7 +78,7 @@ def replay(case):
     fns = {'lie': ode.lie_splitting, 'strang': ode.strang_splitting, 'yoshida': ode.yoshida_splitting,
            'kahan_li': ode.kahan_li_splitting}
     plan = {'lie': (1 / 64, 4), 'strang': (1 / 32, 4), 'yoshida': (1 / 16, 2), 'kahan_li': (1 / 4, 2)}
-    kind = 'cplx' if cfg['herm'] else 'real'
+    kind = ('cplx-realstate' if cfg['xr'] else 'cplx') if cfg['herm'] else 'real'
     out = []
     for name, f in fns.items():
         word = isl['words'][name]
